@@ -16,6 +16,8 @@ pub enum MExpr {
     HwQubit(u32),
     Bin(&'static str, Box<MExpr>, Box<MExpr>),
     Neg(Box<MExpr>),
+    /// `!e` / `~e` (only in programs of the wider grammar: the analyser does not support them)
+    Un(&'static str, Box<MExpr>),
     Paren(Box<MExpr>),
     Call(String, Vec<MExpr>),
     Index(Box<MExpr>, Vec<MExpr>),
@@ -196,6 +198,17 @@ impl<'a> Printer<'a> {
                     self.tok("(");
                 }
                 self.tok("-");
+                self.expr(x, SPEC_UNARY_LEVEL, true);
+                if paren {
+                    self.tok(")");
+                }
+            }
+            MExpr::Un(op, x) => {
+                let paren = SPEC_UNARY_LEVEL < parent_level || self.lay.redundant_parens;
+                if paren {
+                    self.tok("(");
+                }
+                self.tok(op);
                 self.expr(x, SPEC_UNARY_LEVEL, true);
                 if paren {
                     self.tok(")");
@@ -647,9 +660,17 @@ impl<'a> Gen<'a> {
             };
         }
         match self.rng.below(8) {
+            0 if !self.sema_safe && self.rng.below(2) == 0 => {
+                let op = if self.rng.below(2) == 0 { "!" } else { "~" };
+                MExpr::Un(op, Box::new(self.num_expr(env, depth - 1)))
+            }
             0 => MExpr::Neg(Box::new(self.num_expr(env, depth - 1))),
             1 => MExpr::Paren(Box::new(self.num_expr(env, depth - 1))),
             2 => MExpr::Cast(self.pick(&["int[32]", "float[64]", "uint[8]", "float"]).to_string(), Box::new(self.num_expr(env, depth - 1))),
+            4 if !self.sema_safe && !env.vars.is_empty() => {
+                let (n, _, _) = self.pick(&env.vars);
+                MExpr::Index(Box::new(MExpr::Ident(n)), vec![self.num_expr(env, depth - 1)])
+            }
             3 if !env.defs.is_empty() => {
                 let (f, np, _) = self.pick(&env.defs);
                 MExpr::Call(f, (0..np).map(|_| self.num_expr(env, 0)).collect())
